@@ -36,7 +36,6 @@ package version
 //@ lock familyVersion.mutex protects current activeVersions
 //@ stable version.fv
 //@ func Version.Retain
-//@   norefine
 //@   requires[pinned_while_the_family_version_is_locked] typeis(self, "*version") && locked(cast(cast(self, "*version").fv, "*familyVersion").mutex)
 //@   modifies cast(self, "*version").ref.val
 //@   ensures cast(self, "*version").ref.val == old(cast(self, "*version").ref.val) + 1
@@ -239,4 +238,23 @@ package version
 //@   loop 2 invariant[files_of_earlier_levels_stay] forall(l, 0, len(v.levels), all(k, "table.FileNumber", hint(v.levels[l].files[k], (l < rangeindex1 + 1 && has(v.levels[l].files, k) && v.levels[l].files[k].minKey <= key && key <= v.levels[l].files[k].maxKey) ==> exists(i, 0, len(files), files[i] == v.levels[l].files[k]))))
 //@   loop 2 invariant[candidates_of_this_level_so_far] forall(j, 0, rangeindex + 1, (rangeslice[j].minKey <= key && key <= rangeslice[j].maxKey) ==> exists(i, 0, len(files), files[i] == rangeslice[j]))
 //@   loop 2 invariant[this_level_is_listed_completely] all(k, "table.FileNumber", has(level.files, k) ==> exists(j, 0, len(rangeslice), rangeslice[j] == level.files[k]))
+//@ end
+
+//@ # ---- the reference count itself (C02): pin and release change the count by exactly one; the last release
+//@ # unregisters the version only through removeVersion (which keeps the current and any re-pinned version) -------
+//@ func version.Retain
+//@   prop C02
+//@   modifies v.ref.val
+//@   ensures[pinned_once] v.ref.val == old(v.ref.val) + 1
+//@ end
+//@ func FamilyVersion.removeVersion
+//@   norefine
+//@   modifies any(*familyVersion).activeVersions[*]
+//@ end
+//@ func version.Release
+//@   prop C02
+//@   requires v.fv != nil
+//@   modifies v.ref.val, any(*familyVersion).activeVersions[*]
+//@   ensures[released_once] v.ref.val == old(v.ref.val) - 1
+//@   ensures[only_the_last_release_touches_the_registration] old(v.ref.val) != 1 ==> calls(v.fv.removeVersion) == old(calls(v.fv.removeVersion))
 //@ end
